@@ -16,7 +16,7 @@ let show_dec = function
 
 let init () =
   register "decode" (fun a -> match a with
-    | [h] -> show_dec (decode (bytes_of_hex h))
+    | [h] -> show_dec (decode_chk (bytes_of_hex h))
     | _ -> "bad-args");
   register "encode" (fun a -> match a with
     | [src; rid; ps; body] ->
